@@ -33,6 +33,7 @@ struct World {
     suuid: Vec<Uuid>,
     now: u64, // simulated seconds offset from T0
     last_skew: bool,
+    tscale: u64, // seconds per model time unit for explicit-time ops (10 by default)
     cred: kanidmd_lib::credential::Credential,
 }
 
@@ -52,7 +53,7 @@ impl World {
         }
         let p = CryptoPolicy::minimum();
         let cred = kanidmd_lib::credential::Credential::new_password_only(&p, "verif_password", OffsetDateTime::UNIX_EPOCH + t(0)).expect("cred");
-        let mut w = World { qs, suuid: vec![], now: 1, last_skew: false, cred };
+        let mut w = World { qs, suuid: vec![], now: 1, last_skew: false, tscale: 10, cred };
         // all other replicas are refreshed from A so that they share the domain
         for i in 1..n {
             let r = w.refresh(0, i).await;
@@ -253,7 +254,7 @@ async fn step(w: &mut World, op: &J) -> J {
     let saved_now = w.now;
     if let Some(mt) = op["t"].as_u64() {
         let actor = r.or_else(|| op["to"].as_str().map(ridx)).unwrap_or(0);
-        w.now = 1000 + mt * 10 + actor as u64 + 1;
+        w.now = 1000 + mt * w.tscale + actor as u64 + 1;
         advance = false;
     }
     let explicit = op["t"].as_u64().is_some();
@@ -314,9 +315,13 @@ async fn step(w: &mut World, op: &J) -> J {
         }
         "delete" => json!(w.local(r.expect("r"), move |wr| wr.internal_delete_uuid(uuid_e(e))).await),
         "revive" => json!(w.local(r.expect("r"), move |wr| revive_uuid(wr, uuid_e(e))).await),
+        "trim" => json!(w.local(r.expect("r"), |wr| wr.purge_tombstones().map(|_| ())).await),
         "purge" => {
-            // model purge of one recycled entry: jump past the retention period, purge, (time stays advanced)
-            w.now += RECYCLEBIN_MAX_AGE + 1;
+            // model purge of one recycled entry: jump past the retention period unless the behaviour's own
+            // time scale already covers it (tscale > 10: model time units are days), then purge
+            if w.tscale <= 10 {
+                w.now += RECYCLEBIN_MAX_AGE + 1;
+            }
             json!(w.local(r.expect("r"), |wr| wr.purge_recycled().map(|_| ())).await)
         }
         "purge_rec" => json!(w.local(r.expect("r"), |wr| wr.purge_recycled().map(|_| ())).await),
@@ -454,6 +459,7 @@ pub fn run(o: &Opts) -> i32 {
             if opname == "init" {
                 let n = op["n"].as_u64().unwrap_or(2) as usize;
                 let mut nw = World::new(n).await;
+                nw.tscale = op["tscale"].as_u64().unwrap_or(10);
                 let st = nw.proj().await;
                 w = Some(nw);
                 let mut line = op.clone();
